@@ -4,35 +4,122 @@ package forward
 
 import (
 	"context"
+	"fmt"
+	"reflect"
+	"strings"
+	"unsafe"
 
 	"github.com/bluenviron/mediamtx/internal/stream"
 )
+
+// This shim observes Manager / DestHandler WITHOUT naming any private field or method, so that a
+// refactor of the manager's private bookkeeping (renamed, dropped or added fields) neither breaks
+// the build of the check nor changes what is judged. Private fields are located by TYPE through
+// reflection and read through unsafe; the field name is only a tie-breaker when several fields
+// have the wanted type. Only two facts are indispensable:
+//   - the list of handlers the manager holds (a field of type []*DestHandler),
+//   - per handler, a channel that is open exactly while its run goroutine lives (a field of type
+//     chan struct{}; fallback: the Done() channel of a context.Context field).
+// Everything else (started flag, stream pointer, ...) is optional and only feeds the state key or
+// an optional consistency check.
 
 // VerifC39Probe is a point-in-time observation of one DestHandler, taken by the goroutine that
 // drives the Manager (start/stop write these fields on that same goroutine, so no lock is needed).
 type VerifC39Probe struct {
 	H    *DestHandler
 	Done <-chan struct{} // nil: never started; open: the run goroutine exists; closed: it has ended
-	Ctx  context.Context // nil: never started
+}
+
+// verifC39Field finds the field of the struct pointed to by obj whose type is want. With several
+// candidates the one called prefer wins; otherwise the lookup is ambiguous and fails.
+func verifC39Field(obj any, want reflect.Type, prefer string) (unsafe.Pointer, string, bool) {
+	v := reflect.ValueOf(obj).Elem()
+	t := v.Type()
+	var found []int
+	for i := 0; i < t.NumField(); i++ {
+		if t.Field(i).Type == want {
+			found = append(found, i)
+		}
+	}
+	pick := -1
+	switch {
+	case len(found) == 1:
+		pick = found[0]
+	case len(found) > 1:
+		for _, i := range found {
+			if t.Field(i).Name == prefer {
+				pick = i
+			}
+		}
+	}
+	if pick < 0 {
+		return nil, "", false
+	}
+	return unsafe.Pointer(v.Field(pick).UnsafeAddr()), t.Field(pick).Name, true
 }
 
 // VerifC39Handlers returns the handlers currently held by the manager, in list order.
-func VerifC39Handlers(m *Manager) []*DestHandler {
-	m.mutex.RLock()
-	defer m.mutex.RUnlock()
-	return append([]*DestHandler(nil), m.destHandlers...)
-}
-
-// VerifC39ProbeHandler observes the run state of a handler.
-func VerifC39ProbeHandler(h *DestHandler) VerifC39Probe {
-	p := VerifC39Probe{H: h, Ctx: h.ctx}
-	if h.done != nil {
-		p.Done = h.done
+// ok=false: the manager has no (unambiguous) field of type []*DestHandler.
+func VerifC39Handlers(m *Manager) ([]*DestHandler, bool) {
+	p, _, ok := verifC39Field(m, reflect.TypeOf([]*DestHandler(nil)), "destHandlers")
+	if !ok {
+		return nil, false
 	}
-	return p
+	return append([]*DestHandler(nil), *(*[]*DestHandler)(p)...), true
 }
 
-// VerifC39ManagerState returns the manager's started flag and the stream it holds.
-func VerifC39ManagerState(m *Manager) (bool, *stream.Stream) {
-	return m.started, m.stream
+// VerifC39ProbeHandler observes the run state of a handler. ok=false: the handler exposes neither
+// a chan struct{} field nor a context.Context field.
+func VerifC39ProbeHandler(h *DestHandler) (VerifC39Probe, bool) {
+	pr := VerifC39Probe{H: h}
+	if p, _, ok := verifC39Field(h, reflect.TypeOf((chan struct{})(nil)), "done"); ok {
+		if c := *(*chan struct{})(p); c != nil {
+			pr.Done = c
+		}
+		return pr, true
+	}
+	if p, _, ok := verifC39Field(h, reflect.TypeOf((*context.Context)(nil)).Elem(), "ctx"); ok {
+		if c := *(*context.Context)(p); c != nil {
+			pr.Done = c.Done()
+		}
+		return pr, true
+	}
+	return pr, false
+}
+
+// VerifC39ManagerStream returns the stream the manager remembers, if it remembers one at all
+// (optional private bookkeeping: ok=false when there is no unambiguous *stream.Stream field).
+func VerifC39ManagerStream(m *Manager) (*stream.Stream, bool) {
+	p, _, ok := verifC39Field(m, reflect.TypeOf((*stream.Stream)(nil)), "stream")
+	if !ok {
+		return nil, false
+	}
+	return *(**stream.Stream)(p), true
+}
+
+// VerifC39ManagerFingerprint abstracts whatever private control state the manager keeps, without
+// knowing its names: every unexported bool field with its value, every unexported pointer /
+// interface / func / chan / map field with its nil-ness. It only feeds the state key of the search
+// (states that differ in private bookkeeping are not merged); it is never judged.
+func VerifC39ManagerFingerprint(m *Manager) string {
+	v := reflect.ValueOf(m).Elem()
+	t := v.Type()
+	var b strings.Builder
+	for i := 0; i < t.NumField(); i++ {
+		f := t.Field(i)
+		if f.IsExported() {
+			continue
+		}
+		switch f.Type.Kind() {
+		case reflect.Bool:
+			fmt.Fprintf(&b, "%s=%v ", f.Name, *(*bool)(unsafe.Pointer(v.Field(i).UnsafeAddr())))
+		case reflect.Pointer, reflect.Interface, reflect.Func, reflect.Chan, reflect.Map:
+			if v.Field(i).IsNil() {
+				fmt.Fprintf(&b, "%s=nil ", f.Name)
+			} else {
+				fmt.Fprintf(&b, "%s=set ", f.Name)
+			}
+		}
+	}
+	return strings.TrimSpace(b.String())
 }
